@@ -28,21 +28,31 @@ ENCODED = ["twisted._threads._team:Team.do", "twisted._threads._team:Team.grow",
            "twisted._threads._convenience:Quit.check"]
 BOUNDS = {"quick": {"hist": 3, "eager": 4, "sched": 6}, "thorough": {"hist": 5, "eager": 6, "sched": 7}}
 B = {}
-BOUNDS_TEXT = ("every history of <= hist events over {do(task), grow(n), shrink(n), quit, change limit, "
-               "step coordinator, step 1st busy worker, step 2nd busy worker} from a fresh Team, followed by a "
-               "full drain; each task symbolically succeeds or raises; n symbolic in 0..2; limit symbolic in "
-               "1..2 (initial value symbolic, the change event switches to the other value)")
-OUTSIDE = ["real OS threads: ThreadWorker, LockWorker, ThreadPool (threadpool.py) and their locking are not "
-           "executed; the coordinator and all workers are twisted's own MemoryWorker, stepped by the harness",
-           "limit 0 (unstarted ThreadPool) and more than two simultaneous workers; shrink(None)",
+BOUNDS_TEXT = ("three exhaustive families of event histories from a fresh Team, each followed by a full drain "
+               "(coordinator and all workers performed until nothing is runnable) and the oracle: "
+               "`history` <= hist events over all eight events {do(task), grow(n), shrink(n), quit, change limit, "
+               "step coordinator, step 1st busy worker, step 2nd busy worker}; `eager` <= eager events over the same "
+               "events with the coordinator performing every item as soon as it is queued (the LockWorker "
+               "discipline; no 'step coordinator' event); `sched` <= sched events over {do, quit, change limit, step "
+               "coordinator, step 1st/2nd busy worker} with at most one raising task (which one is symbolic).  "
+               "history/eager: every task symbolically succeeds or raises, every n symbolic in 0..2.  Limit symbolic "
+               "in 1..2 (initial value symbolic; the change event switches to the other value)")
+OUTSIDE = ["real OS threads: ThreadWorker, LockWorker, ThreadPool (threadpool.py: callInThreadWithCallback, stop, "
+           "adjustPoolsize) and their locking are not executed; the coordinator and all workers are twisted's own "
+           "MemoryWorker, stepped by the harness - the second sentence of the property (real thread pool) is not claimed",
+           "limit 0 (unstarted ThreadPool), more than two simultaneous workers, shrink(None)",
            "which idle worker set.pop() selects: idle workers are indistinguishable (empty queue, not quit); "
            "the harness gives workers a deterministic hash so one selection order is explored",
-           "histories longer than the bound"]
-ASSUMPTIONS = ["a history event that is verified to be a no-op (stepping an empty queue; an API call refused "
-               "with AlreadyQuit that leaves the coordinator queue unchanged) ends the path after that check: "
-               "the same history without the event is a shorter history inside the bound",
+           "histories longer than the bounds; grow/shrink events combined with a lazily stepped coordinator beyond "
+           "`hist` events"]
+ASSUMPTIONS = ["a history event that is verified to be a no-op (stepping an empty queue or a worker that is not "
+               "busy; an API call refused with AlreadyQuit that leaves the coordinator queue unchanged; grow(0)/"
+               "shrink(0) with the eager coordinator) ends the path after that check: the same history without the "
+               "event is a shorter history inside the bound",
                "the symbolic task outcome / grow-shrink count / limit are decided by the solver at the point "
-               "where the real code first looks at them"]
+               "where the real code first looks at them",
+               "_pool.pool() is the real function; only the names LockWorker/ThreadWorker/err it looks up are "
+               "rebound to memory-worker factories and a counting logException for the duration of a run"]
 EXPLANATION = ("real pool()-built Team over real MemoryWorkers; the solver chooses the event history, task "
                "outcomes, counts and limit; reference bookkeeping in the harness is compared after every event "
                "and after the final drain")
